@@ -107,6 +107,9 @@ theorem cmdServerSvsjoin_mid
     · rename_i hvc
       simp only [getChan_eq, putChan_putChan] at hr
       split at hr
+      · obtain ⟨pn, _, hr⟩ := Res.bind_eq_ok.1 hr
+        cases hr; exact h.sendSvc _
+      split at hr
       · rename_i hcont
         cases hr
         cases hg : AMap.get c.st.channels (chanToLower chn) with
@@ -148,6 +151,8 @@ theorem cmdServerSvsjoin_safe_of
     split
     · exact NoPanic.pure _
     · rename_i hvc
+      split
+      · exact NoPanic.pure _
       split
       · exact NoPanic.pure _
       · obtain ⟨t, ht⟩ := h.hinv.toWInvCore.indexed_stored hidx
